@@ -305,7 +305,20 @@ impl<T: Actor> ActorRef<T> {
             });
         }
 
-        match reply_rx.await {
+        // Wait for the reply - or for the mailbox to close. Once the mailbox is closed the actor has
+        // ended and handles nothing any more, so a reply that has not been sent by then never will
+        // be. Waiting on the reply channel alone is not enough: a send that had reserved its slot
+        // just before the actor ended still pushes its envelope into the closed mailbox, where
+        // nobody drops it (the envelope holds an `ActorRef`, i.e. a sender of that very channel),
+        // so its reply channel would stay open forever.
+        let mut reply_rx = reply_rx;
+        let reply = tokio::select! {
+            biased;
+            reply = &mut reply_rx => reply.ok(),
+            _ = self.sender.closed() => reply_rx.try_recv().ok(),
+        };
+
+        match reply.ok_or(()) {
             Ok(reply_any) => {
                 // Successfully received reply from actor
                 match reply_any.downcast::<T::Reply>() {
